@@ -25,6 +25,7 @@ type Obl struct {
 	Secs    float64
 	Pos     string
 	Trivial bool // discharged without a solver (syntactic freshness)
+	Confirm []string // thorough tier: other back ends that independently answered unsat on the whole-path run
 	Term    string
 }
 
